@@ -78,6 +78,24 @@ fn main() {
                     }
                 }
             }
+            // duration <months> <days> <nanos>: serialized duration cell body (three vints) and the value decoded back from it
+            "duration" => {
+                use scylla_cql_core::deserialize::value::DeserializeValue;
+                use scylla_cql_core::deserialize::FrameSlice;
+                use scylla_cql_core::serialize::value::SerializeValue;
+                use scylla_cql_core::serialize::writers::CellWriter;
+                use scylla_cql_core::value::CqlDuration;
+                let d = CqlDuration { months: a[1].parse().unwrap(), days: a[2].parse().unwrap(), nanoseconds: a[3].parse().unwrap() };
+                let typ = ColumnType::Native(NativeType::Duration);
+                let mut buf = Vec::new();
+                d.serialize(&typ, CellWriter::new(&mut buf)).map(|_| ()).unwrap();
+                let body = bytes::Bytes::copy_from_slice(&buf[4..]);
+                let back = <CqlDuration as DeserializeValue>::deserialize(&typ, Some(FrameSlice::new(&body)));
+                match back {
+                    Ok(b) => format!("{} {} {} {}", hex(&buf[4..]), b.months, b.days, b.nanoseconds),
+                    Err(_) => format!("{} DECODE-ERR", hex(&buf[4..])),
+                }
+            }
             // udt <struct kind> <a> <b> <c> <comma separated database field names>: derived SerializeValue against that UDT
             "udt" => {
                 use scylla_cql_core::frame::response::result::UserDefinedType;
